@@ -203,6 +203,12 @@ def column(draw, i, n, encoding):
         if ctype == 'datetime':
             col['base'] = draw(st.sampled_from(['datetime', 'dateTime']))
         vs = instant_strategy(col['format'] or iso[0])
+    if col.get('format') and draw(st.integers(0, 2)) == 0:
+        # where the format is written: inside the datatype object (the
+        # usual place), or on the column, beside a bare or an object
+        # datatype
+        col['format_on'] = draw(st.sampled_from(['column-bare',
+                                                 'column-dict']))
     cells = [draw(vs) for _ in range(n)]
     if n and draw(st.integers(0, 2)) != 0:
         for _ in range(draw(st.integers(1, 2))):
@@ -234,6 +240,12 @@ def case_strategy(draw, tier):
                 cols[0]['name'], cols[-1]['name'] = a, b
         except UnicodeEncodeError:
             pass
+    if draw(st.integers(0, 5)) == 0:
+        # a name that really begins or ends with a space
+        c = draw(st.sampled_from(cols))
+        nm = draw(st.sampled_from([c['name'] + ' ', ' ' + c['name']]))
+        if nm not in names:
+            c['name'] = nm
     header = draw(st.sampled_from(['present', 'present', 'present',
                                    'absent-titles', 'absent-no-titles']))
     return {
@@ -367,13 +379,17 @@ def metadata(case):
     for c in case['cols']:
         t = c['type']
         base = c.get('base') or t
-        if t in ('boolean', 'date', 'datetime') and c.get('format'):
+        place = c.get('format_on')
+        if t in ('boolean', 'date', 'datetime') and c.get('format') and (
+                place is None):
             dt = {'base': base, 'format': c['format']}
-        elif c.get('as_dict'):
+        elif c.get('as_dict') or place == 'column-dict':
             dt = {'base': base}
         else:
             dt = base
         col = {'name': c['name'], 'datatype': dt}
+        if place and c.get('format'):
+            col['format'] = c['format']
         if case['header'] == 'absent-titles' or (
                 case['header'] == 'present' and case.get('titles')):
             col['titles'] = c['name']
